@@ -12,6 +12,7 @@ LEVEL = "model_checking"
 
 CONFIGS = [
     ({}, "motion", 128, 128, 8, 14),
+    ({"enable_tpl_la": 1}, "motion", 64, 64, 8, 70),
     ({"enable_qp_scaling_flag": 0, "enable_tpl_la": 0}, "noise", 128, 64, 8, 12),
     ({"tile_columns": 1, "tile_rows": 1}, "motion", 256, 128, 8, 10),
     ({"rate_control_mode": 1, "target_bit_rate": 200000}, "motion", 176, 144, 8, 20),
@@ -31,6 +32,7 @@ CONFIGS_THOROUGH = [
 def known(r, kind):
     s = r["case"]["sets"]
     return {"kind": "nondeterministic" if kind == "mismatch" else kind, "rate_control_mode": s.get("rate_control_mode", 0),
+            "enable_tpl_la": int(s.get("enable_tpl_la", 0)),
             "hierarchical_levels": s.get("hierarchical_levels", 4), "logical_processors": s.get("logical_processors")}
 
 
